@@ -274,6 +274,42 @@ func checkC06(c *Check) {
 			checkDoc("cbe", r.Out, nil, fmt.Sprintf("targeted%d", i), cfg)
 		}
 	}
+	// documents exactly as deep as the configured maximum allows: valid, so they unmarshal, and the value
+	// marshals again under the same limit (the iterator has a depth guard of its own)
+	for d := 1; d <= 5; d++ {
+		for _, recursion := range []bool{false, true} {
+			cfg := configuration.New()
+			cfg.Rules.MaxContainerDepth = uint64(d)
+			dm := configuration.New()
+			dm.Rules.MaxContainerDepth = uint64(d)
+			dm.Iterator.RecursionSupport = recursion
+			checkDepth := c06CheckDoc(c, &mu, seenDev, dm)
+			lists := "c0\n" + strings.Repeat("[", d) + "1 2" + strings.Repeat("]", d)
+			maps := "c0\n" + strings.Repeat("{\"k\" = ", d) + "1" + strings.Repeat("}", d)
+			mixed := "c0\n"
+			for i := 0; i < d; i++ {
+				if i%2 == 0 {
+					mixed += "[ "
+				} else {
+					mixed += "{\"k\" = "
+				}
+			}
+			mixed += "\"deep\""
+			for i := d - 1; i >= 0; i-- {
+				if i%2 == 0 {
+					mixed += " ]"
+				} else {
+					mixed += "}"
+				}
+			}
+			for j, text := range []string{lists, maps, mixed} {
+				checkDepth("cte", []byte(text), nil, fmt.Sprintf("depth%d-%v-%d", d, recursion, j), cfg)
+				if r := convertCTEtoCBE([]byte(text), cfg); r.bad() == "" {
+					checkDepth("cbe", r.Out, nil, fmt.Sprintf("depth%d-%v-%d", d, recursion, j), cfg)
+				}
+			}
+		}
+	}
 }
 
 // c06CheckDoc returns the per-document check: decode with rules (precondition), unmarshal untyped,
